@@ -60,6 +60,9 @@ def universe(rng, nmax, n_target, fail_mode, layouts=("flat", "lit", "nested")):
             req = rng.choice(reqs)
             cfg = {"n": n, "nodes": g, "req": req, "nw": rng.choice([1, 2, 3]), "cs": rng.choice([1, 1, 2, 3, -1]), "fails": [],
                    "pack": rng.random() < 0.6}
+            datas = sorted(k for k in S.needed(cfg) if g[k - 1]["kind"] == "data")
+            if datas and rng.random() < 0.25:
+                cfg["stale"] = sorted(rng.sample(datas, rng.randint(1, len(datas))))
             tasks = sorted(k for k in S.needed(cfg) if g[k - 1]["kind"] == "task")
             if fail_mode != "none" and tasks and (fail_mode == "always" or rng.random() < 0.3):
                 nf = 1 if rng.random() < 0.7 or len(tasks) < 2 else 2
@@ -308,11 +311,13 @@ def record_real_run(cfg, mode, seed, fail_kind="exc"):
     box = {"ret": None, "raised": 0, "exc_type": "", "exc_msg": "", "nw": nw, "done": False}
     expected = S.FAIL_KINDS[fail_kind]
 
+    ckw = {"cache": S.user_cache(cfg)} if cfg.get("stale") else {}
+
     def call():
         try:
             with cb:
                 if mode == "threaded":
-                    out = dask.threaded.get(g, req, num_workers=nw, chunksize=cfg["cs"])
+                    out = dask.threaded.get(g, req, num_workers=nw, chunksize=cfg["cs"], **ckw)
                 elif mode == "tpool":
                     # a multiprocessing.pool-style pool handed to the threaded scheduler
                     import multiprocessing.pool
@@ -323,9 +328,9 @@ def record_real_run(cfg, mode, seed, fail_kind="exc"):
                         tp.terminate()
                 elif mode == "executor":
                     with ThreadPoolExecutor(nw) as ex:
-                        out = L.get_async(ex.submit, nw, g, req, chunksize=cfg["cs"])
+                        out = L.get_async(ex.submit, nw, g, req, chunksize=cfg["cs"], **ckw)
                 elif mode == "sync":
-                    out = L.get_sync(g, req, chunksize=cfg["cs"])
+                    out = L.get_sync(g, req, chunksize=cfg["cs"], **ckw)
                 elif mode == "mp":
                     pool = _mp_pool()
                     box["nw"] = pool._max_workers
